@@ -42,6 +42,19 @@ def gen(rng):
         s.refs.append((b"refs/tags/tree-tag", g))
     if trees and rng.random() < 0.3:
         s.refs.append((b"refs/tags/tree-ref", rng.choice(trees)))
+    if rng.random() < 0.4:
+        # "project moved to the top": the root tree X of the newest commit is, in an older commit, the LAST entry of a tree
+        # that also has another, otherwise unseen sub-tree; X holds the witnesses (most entries, biggest blob)
+        big = s.add({"kind": "blob", "data": bytes(rng.randrange(256) for _ in range(64)) * 200})
+        small = s.add({"kind": "blob", "data": b"doc\n"})
+        x = s.add({"kind": "tree", "entries": sorted([(0o100644, b"f%02d" % i, big if i == 3 else small) for i in range(rng.choice([9, 14]))], key=lambda e: e[1])})
+        sdoc = s.add({"kind": "tree", "entries": [(0o100644, rng.choice([b"readme", b"a b", b"x:y"]), small)]})
+        first, last = rng.choice([(b"docs", b"src"), (b"a", b"zz"), (b"lib", b"lib2")])
+        t = s.add({"kind": "tree", "entries": [(0o40000, first, sdoc), (0o40000, last, x)]})
+        commits = [i for i, o in enumerate(s.objects) if o["kind"] == "commit"]
+        old = s.add({"kind": "commit", "tree": t, "parents": commits[-1:], "date": 1500000000})
+        new = s.add({"kind": "commit", "tree": x, "parents": [old], "date": 1500000100})
+        s.refs.append((rng.choice([b"refs/heads/moved", b"refs/heads/zz-moved", b"refs/remotes/origin/moved"]), new))
     return s.normalize()
 
 
@@ -91,6 +104,40 @@ def metric_value(sc, x, key):
     if key == "max_expanded_submodule_count":
         return sum(1 for i in xs if i[1] == "sub")
     raise KeyError(key)
+
+
+def py_resolve(sc, table, desc):
+    """The stated model of `git rev-parse` of Resolve.v (four spellings), over a scenario: table maps the atomic names
+    (full reference names, ROOT arguments as spelled) to object indices.  Returns an object index or None."""
+    if desc in table:
+        return table[desc]
+    if len(desc) == 40:
+        for i, o in enumerate(sc.oids):
+            if o.hex().encode() == desc:
+                return i
+    if desc.endswith(b"^{tree}"):
+        x = py_resolve(sc, table, desc[:-7])
+        if x is not None and sc.objects[x]["kind"] == "commit":
+            return sc.objects[x]["tree"]
+        return None
+    if b":" in desc:
+        rev, _, path = desc.partition(b":")
+        x = py_resolve(sc, table, rev)
+        if x is None or not path:
+            return None
+        if sc.objects[x]["kind"] == "commit":
+            x = sc.objects[x]["tree"]
+        if sc.objects[x]["kind"] != "tree":
+            return None
+        for comp in path.split(b"/"):
+            if sc.objects[x]["kind"] != "tree":
+                return None
+            nxt = [ref for mode, name, ref in sc.objects[x]["entries"] if name == comp]
+            if len(nxt) != 1 or isinstance(nxt[0], bytes):
+                return None
+            x = nxt[0]
+        return x
+    return None
 
 
 def finding_class(desc, sc, roots_objs):
@@ -201,6 +248,23 @@ def one_style(ctx, eng, res, stats, sc, args, explicit, roots, walked, style, re
                         if clean is False:
                             res.violations.append(vlib.Violation("%s differs from the PathResolver model" % pkey, inp, expected=mstr, observed=val,
                                                                  nofail=True))
+                # under the fake git: the stated model of rev-parse (Resolve.resolves, transcribed) is the judge
+                if (not real) and desc and style == "full":
+                    table = {n: x for n, x in sc.refs}
+                    table.update({sp.encode(): x for sp, x in explicit})
+                    try:
+                        rawd = desc.encode("utf-8")
+                    except UnicodeEncodeError:
+                        rawd = None
+                    if rawd is not None and "\ufffd" not in desc:
+                        stats["descriptions_resolved_by_model"] = stats.get("descriptions_resolved_by_model", 0) + 1
+                        got_i = py_resolve(sc, table, rawd)
+                        if got_i != xi:
+                            cls = finding_class(desc, sc, [sp for sp, _ in explicit])
+                            res.violations.append(vlib.Violation(
+                                "description printed for %s does not resolve (stated rev-parse model) to the cited object" % pkey, inp,
+                                expected=oidhex, observed={"description": desc, "resolves_to": sc.oids[got_i].hex() if got_i is not None else None},
+                                cls=cls))
                 # git as judge
                 if real and desc and style == "full":
                     rawdesc = desc.encode("utf-8")
